@@ -21,6 +21,14 @@ strengthening: hidden per-instance state (vars(q) minus the constructor argument
                switch, rebuild, compare under both), histories on one object (called, handed to a
                layer = `_set_trainable_parameter`, `update_qnoise_factor`, `use_variables` + call),
                argument forms (numpy scalars, 0-d arrays, tf.constant, int for float, ...).
+fix round 2  : the form (literal / numpy scalar / ndarray / tensor / variable) of every value the real
+               get_config() of a used / form-variant object emits vs the model's `configForms`
+               (`exportForm`: a `qnoise_factor` variable leaves as a numpy scalar in EVERY class,
+               `post_training_scale` as a list), and the clause `rebuilt_shares_variable`: no option
+               of a rebuilt quantizer is the very tf.Variable object the original holds.  The former
+               finding (quantized_linear handed its qnoise_factor variable out) has no special
+               handling left: its return is a `config_forms` / `keras_outcome` disagreement plus
+               `rebuild_raises` (Keras route) and `rebuilt_shares_variable` (dictionary routes).
 """
 import inspect
 import os
@@ -114,6 +122,13 @@ def _routes(Q, tf, cls, name, q):
   return cfg, [("from_config", lambda: cls.from_config(cfg)),
                ("get_quantizer", lambda: Q.get_quantizer({"class_name": name, "config": cfg})),
                ("keras", keras)]
+
+
+def _shared_variables(tf, q, q2, names):
+  """options the rebuilt quantizer holds in the very tf.Variable object of the original (a
+  get_config that hands its variable out: updating one quantizer then changes the other)"""
+  return [k for k in names if isinstance(getattr(q2, k, None), tf.Variable)
+          and getattr(q2, k, None) is getattr(q, k, None)]
 
 
 def _raises(o):
@@ -350,7 +365,9 @@ def _history_stream(run, tier, Q, tf, K, reg, model_cls, rng, xs):
         rec["hidden"] = _stable_hidden(q, names)
         rec["forms"] = [[k, L.form_of(getattr(q, k, None))] for k in names]
         try:
-          rec["config"] = _cfg_canon(q.get_config())
+          cfg_real = q.get_config()
+          rec["config"] = _cfg_canon(cfg_real)
+          rec["config_forms"] = [[k, L.form_of(v)] for k, v in cfg_real.items()]
         except Exception as e:  # pylint: disable=broad-except
           run.violate("get_config_raises", {"class": name, "error": L.err_tag(e), "history": hname}, key, mirrored=False)
           continue
@@ -382,6 +399,7 @@ def _history_stream(run, tier, Q, tf, K, reg, model_cls, rng, xs):
               r["config"] = ["<raises %s>" % L.err_tag(e)]
             if route == "keras":
               r["dict_attrs"] = [k for k in names if L.is_tensor_dict(getattr(q2, k, None))]
+            r["shared"] = _shared_variables(tf, q, q2, names)
             o2 = L.observe(q2, hx, phases, grad=grad)
             r["kinds"] = sorted(L.obs_diff(o1, o2))
           except Exception as e:  # pylint: disable=broad-except
@@ -415,6 +433,16 @@ def _judge_history(run, rec, o, keras_model, stream):
     mirrored = False
   if rec["config"] != L.canon_env(o["config"]):
     run.disagree(stream + ".get_config", key, rec["config"], L.canon_env(o["config"]))
+    mirrored = False
+  # the form every emitted configuration value is held in (model: `configForms` / `exportForm`):
+  # a get_config that hands out a tf.Variable (or converts a value the model says it passes on)
+  run.compared += 1
+  mf = [list(p) for p in keras_model.get("config_forms", [])]
+  if sorted(map(tuple, rec["config_forms"])) != sorted(map(tuple, mf)):
+    d0, d1 = dict(map(tuple, rec["config_forms"])), dict(map(tuple, mf))
+    run.disagree(stream + ".config_forms", key,
+                 {k: d0.get(k) for k in sorted(set(d0) | set(d1)) if d0.get(k) != d1.get(k)},
+                 {k: d1.get(k) for k in sorted(set(d0) | set(d1)) if d0.get(k) != d1.get(k)})
     mirrored = False
   kr = rec["keras_real"]
   run.compared += 1
@@ -460,6 +488,12 @@ def _judge_history(run, rec, o, keras_model, stream):
       # the tensor was decoded after all (or lost): not the behaviour the model describes
       mirrored = False
     k = {"class": name, "stream": stream}
+    if r.get("shared"):
+      # not mirrored by construction: the model's configuration never holds a variable
+      run.violate("rebuilt_shares_variable", dict(k, field="+".join(r["shared"])),
+                  {"kw": key["kw"], "route": route, **tag,
+                   "replay": "q=%s(**kw); <%s>; q2=<rebuild by %s>; q2.%s is q.%s" % (
+                       name, tag, route, r["shared"][0], r["shared"][0])}, mirrored=False)
     if cause:
       k["route"] = route
       k["cause"] = cause
@@ -492,6 +526,7 @@ def _forms_stream(run, tier, Q, tf, K, reg, model_cls, xs):
     names = [p[0] for p in model_cls[name]["params"]]
     lat = L.LATTICE[name]
     stochastic = name in STOCHASTIC
+    cands = []
     for oi, (opt, vals) in enumerate(lat["options"].items()):
       vs = [v for v in vals if isinstance(v, (bool, int, float))]
       if not vs:
@@ -501,55 +536,66 @@ def _forms_stream(run, tier, Q, tf, K, reg, model_cls, xs):
       # the context that makes the option matter is the LAST one that admits it (see LATTICE)
       ctx = ctxs[-1] if ctxs else {}
       for fname, fv in L.forms(v, alt=(oi % 2) if tier == "quick" else None):
-        kw = dict(ctx)
-        kw[opt] = fv
-        key = {"class": name, "kw": L.enc_env(kw), "form": fname, "option": opt}
-        phases = (0, 1) if stochastic or kw.get("use_stochastic_rounding") else (0,)
+        cands.append((opt, v, ctx, fname, fv))
+    if name == "quantized_bits":
+      # the one option get_config converts whatever it is held in (np.asarray(...).tolist())
+      ctx = {"bits": 4, "alpha": "auto_po2"}
+      cands += [("post_training_scale", np.array([0.5]), ctx, "tf.constant[1]", tf.constant([0.5])),
+                ("post_training_scale", np.array([0.5]), ctx, "tf.Variable[1]", tf.Variable([0.5])),
+                ("post_training_scale", np.array([0.5]), ctx, "ndarray[1]", np.array([0.5], np.float32))]
+    for opt, v, ctx, fname, fv in cands:
+      kw = dict(ctx)
+      kw[opt] = fv
+      key = {"class": name, "kw": L.enc_env(kw), "form": fname, "option": opt}
+      phases = (0, 1) if stochastic or kw.get("use_stochastic_rounding") else (0,)
+      try:
+        q = cls(**kw)
+      except Exception:  # pylint: disable=broad-except
+        run.count("form_construct_raises")
+        continue
+      o1 = L.observe(q, xs[:1], phases, grad=False)
+      if _raises(o1):
+        run.count("form_original_call_raises")     # the form is not accepted by __call__ itself
+        continue
+      run.case(("form", name, opt, fname), nontrivial=True)
+      run.count("form_" + fname)
+      kwl = dict(ctx)
+      kwl[opt] = v
+      if L.observe(cls(**kwl), xs[:1], phases, grad=False) != o1:
+        run.count("form_differs_from_literal")     # not a round-trip clause: counted only
+      rec = {"key": key, "name": name, "kw": kw}
+      rec["attrs"] = L.attrs(q, names)
+      rec["hidden"] = _stable_hidden(q, names)
+      rec["forms"] = [[k, L.form_of(getattr(q, k, None))] for k in names]
+      try:
+        cfg_real = q.get_config()
+        rec["config"] = _cfg_canon(cfg_real)
+        rec["config_forms"] = [[k, L.form_of(v)] for k, v in cfg_real.items()]
+      except Exception as e:  # pylint: disable=broad-except
+        run.violate("get_config_raises", {"class": name, "error": L.err_tag(e), "form": fname}, key, mirrored=False)
+        continue
+      rec["keras_real"] = _keras_real_outcome(tf, q, names)
+      cfg, routes = _routes(Q, tf, cls, name, q)
+      rec["routes"] = {}
+      for route, make in routes:
         try:
-          q = cls(**kw)
-        except Exception:  # pylint: disable=broad-except
-          run.count("form_construct_raises")
-          continue
-        o1 = L.observe(q, xs[:1], phases, grad=False)
-        if _raises(o1):
-          run.count("form_original_call_raises")     # the form is not accepted by __call__ itself
-          continue
-        run.case(("form", name, opt, fname), nontrivial=True)
-        run.count("form_" + fname)
-        kwl = dict(ctx)
-        kwl[opt] = v
-        if L.observe(cls(**kwl), xs[:1], phases, grad=False) != o1:
-          run.count("form_differs_from_literal")     # not a round-trip clause: counted only
-        rec = {"key": key, "name": name, "kw": kw}
-        rec["attrs"] = L.attrs(q, names)
-        rec["hidden"] = _stable_hidden(q, names)
-        rec["forms"] = [[k, L.form_of(getattr(q, k, None))] for k in names]
-        try:
-          rec["config"] = _cfg_canon(q.get_config())
-        except Exception as e:  # pylint: disable=broad-except
-          run.violate("get_config_raises", {"class": name, "error": L.err_tag(e), "form": fname}, key, mirrored=False)
-          continue
-        rec["keras_real"] = _keras_real_outcome(tf, q, names)
-        cfg, routes = _routes(Q, tf, cls, name, q)
-        rec["routes"] = {}
-        for route, make in routes:
+          q2 = make()
+          r = {"ok": L.attrs(q2, names),
+               "hidden": _stable_hidden(q2, names)}
           try:
-            q2 = make()
-            r = {"ok": L.attrs(q2, names),
-                 "hidden": _stable_hidden(q2, names)}
-            try:
-              r["config"] = _cfg_canon(q2.get_config())
-            except Exception as e:  # pylint: disable=broad-except
-              r["config"] = ["<raises %s>" % L.err_tag(e)]
-            if route == "keras":
-              r["dict_attrs"] = [k for k in names if L.is_tensor_dict(getattr(q2, k, None))]
-            r["kinds"] = sorted(L.obs_diff(o1, L.observe(q2, xs[:1], phases, grad=False)))
+            r["config"] = _cfg_canon(q2.get_config())
           except Exception as e:  # pylint: disable=broad-except
-            r = {"err": L.err_tag(e), "msg": str(e)[:160]}
-          rec["routes"][route] = r
-        lines.append({"op": "history", "cls": name, "kw": L.enc_env(kw), "steps": []})
-        lines.append({"op": "keras_forms", "cls": name, "stored": rec["forms"]})
-        metas.append(rec)
+            r["config"] = ["<raises %s>" % L.err_tag(e)]
+          if route == "keras":
+            r["dict_attrs"] = [k for k in names if L.is_tensor_dict(getattr(q2, k, None))]
+          r["shared"] = _shared_variables(tf, q, q2, names)
+          r["kinds"] = sorted(L.obs_diff(o1, L.observe(q2, xs[:1], phases, grad=False)))
+        except Exception as e:  # pylint: disable=broad-except
+          r = {"err": L.err_tag(e), "msg": str(e)[:160]}
+        rec["routes"][route] = r
+      lines.append({"op": "history", "cls": name, "kw": L.enc_env(kw), "steps": []})
+      lines.append({"op": "keras_forms", "cls": name, "stored": rec["forms"]})
+      metas.append(rec)
   outs = core.run_driver("C09", lines)
   for n, rec in enumerate(metas):
     _judge_history(run, rec, outs[2 * n], outs[2 * n + 1], "forms")
